@@ -20,6 +20,7 @@ package merkle
 //@   pure
 
 //@ func NewMerkleTree
+//@   params hashes
 //@   loops 2
 // the depth counter counts the levels of the tree (at most 64 for any list that fits in memory); that bound is not proved
 //@   wraps *
@@ -29,10 +30,12 @@ package merkle
 //@   ensures [C19] @rootExists implies(len(hashes) > 0, result != nil && result.root != nil)
 //@   ensures [C19] @emptyIsNil implies(len(hashes) == 0, result == nil)
 //@ func (*Tree).Root
+//@   recvname m
 //@   loops 0
 //@   modifies nothing
 //@   ensures [C19] @isRoot result == m.root
 //@ func buildTree
+//@   params leaves
 //@   loops 1
 //@   requires len(leaves) >= 1 && forall(k, 0, len(leaves), leaves[k] != nil)
 //@   loop 1: invariant 0 <= idx && idx <= len(parents) && len(parents) == (len(leaves) + 1) / 2 && forall(k, 0, len(parents), parents[k] != nil)
